@@ -14,7 +14,7 @@ EXTENDS Naturals
 Clients  == {"blocking", "async"}
 Backends == {"native-tls", "rustls"}
 Ignores  == {"unset", "false", "true"}
-Roots    == {"none", "pem", "der", "unrelated"}
+Roots    == {"none", "pem", "der", "unrelated", "ownleaf"}     \* "ownleaf": the server's own certificate supplied as a root (extension)
 Certs    == {"valid", "wrongname", "expired", "selfsigned", "unknownissuer"}
 Configs  == [client : Clients, backend : Backends, ignore : Ignores, roots : Roots, cert : Certs]
 
@@ -25,4 +25,9 @@ RootUsable(c, derRoots) ==
   \/ (c.roots = "der" /\ ~(derRoots = "dropped" /\ c.client = "async" /\ c.backend = "rustls"))
 ChainOK(c, derRoots) == c.cert = "valid" /\ RootUsable(c, derRoots)   \* chains to a supplied root, in validity, name matches
 Accept(c) == c.ignore = "true" \/ (c.cert = "valid" /\ c.roots \in {"pem", "der"})
+(* Supplying the server's own certificate as a root is outside C12's matrix.  An expired or wrongly    *)
+(* named certificate must still be refused (the defect is in the certificate, not in the trust         *)
+(* anchor); for the other certificates the back ends may differ (a leaf used as anchor) and either     *)
+(* answer is a step.                                                                                   *)
+Unspecified(c) == c.roots = "ownleaf" /\ c.ignore # "true" /\ c.cert \notin {"wrongname", "expired"}
 =============================================================================
